@@ -106,10 +106,13 @@ def extract(repo, cls_name: str) -> MachineDecl:
     for name, meth in cls.methods.items():
         if name == "__init__":
             continue
-        for call in calls_in(inline.expand(repo, meth, keep={"_perform_transition"})[0]):
-            if (call_name(call) or "") == "self._perform_transition" and call.args and isinstance(call.args[0], ast.Constant):
-                m.methods.setdefault(name, [])
-                m.methods[name].append(call.args[0].value)
+        body = inline.expand(repo, meth, keep={"_perform_transition"})[0]
+        for call in calls_in(body):
+            if (call_name(call) or "") == "self._perform_transition" and call.args:
+                known, value = rules.literal(body, call.args[0])
+                if known and isinstance(value, str):
+                    m.methods.setdefault(name, [])
+                    m.methods[name].append(value)
     if not m.states or not m.transitions:
         raise AnalysisError(f"{cls_name}: no states/transitions extracted")
     for st_attr, st in m.states.items():
